@@ -181,7 +181,7 @@ func suiteResult(name, tier string, known map[string]string) (*engine.SuiteResul
 	if r := load(); r != nil {
 		return r, nil
 	}
-	unlock := engine.Lock("suite-" + name)
+	unlock := engine.Lock("suite-" + name + "-" + tier)
 	defer unlock()
 	if r := load(); r != nil {
 		return r, nil
